@@ -7,7 +7,7 @@ TECH = "TLA+ model (Lease.tla) + TLC exhaustive check + replay of TLC behaviours
 PROPS = {
     "C18": {
         "text": "Lease.tla models etcd lease keys and the per-broker LeaseManager at etcd-operation granularity (acquire = session / create-if-absent txn / reacquire txn / local commit; release = local removal then guarded delete; server-side expiry, client-side notice, ReleaseAll, crash+restart). TLC checks exhaustively that at most one broker is a live owner (owns locally AND its session's lease is alive) and that the etcd part of a Release only ever removes the releasing broker's own key. TLC-generated schedules (simulation + counterexamples of the named wrong designs: unconditional release, unserialised release, unguarded acquire) are imposed on real PartitionLeaseManager/GroupLeaseManager instances over embedded etcd through build-tag gates; the recorded traces are validated by TLC: the C18 predicates on observed values (layer O) and step-by-step conformance (layer C).",
-        "note": "Trusted: TLC, embedded etcd, the in-package projection of m.owned/m.session under m.mu, the admin client's lease list (Leases()) as the lease-liveness oracle, Session.Orphan() as the stand-in for the keepalive loop noticing a lost lease. 'Live owner' is read as in DESIGN §4 C18 (a broker that has not yet noticed its expired session is not a live owner). getOrCreateSession is modelled as one atomic step (see NOTES.md). Needs repo_patches/hook-metadata-gates.patch; the pinned tree violates C18 (repaired by fix-C18-release-guarded-delete.patch).",
+        "note": "Trusted: TLC, embedded etcd, the in-package projection of m.owned/m.session under m.mu, the admin client's lease list (Leases()) as the lease-liveness oracle, a wrapped clientv3.Lease whose keepalive channel is closed by the schedule (SessDone) as the stand-in for the keepalive loop noticing a lost lease. 'Live owner' is read as in DESIGN §4 C18 (a broker that has not yet noticed its expired session is not a live owner). getOrCreateSession is modelled as one atomic step (see NOTES.md). Needs repo_patches/hook-metadata-gates.patch; the pinned tree violates C18 (repaired by fix-C18-release-guarded-delete.patch).",
         "technique": TECH,
     },
     "C20": {
@@ -166,10 +166,14 @@ def check_gates(hits, need):
 
 
 def action_cov(mcs):
+    """states generated per action, from TLC's -coverage output (it is printed periodically: keep the last = largest report)."""
     cov = {}
     for m in mcs:
-        for k, v in m.action_coverage().items():
-            cov[k] = cov.get(k, 0) + v[1]
+        one = {}
+        for x in re.finditer(r"^<(\w+) line \d+, col \d+ to line \d+, col \d+ of module \w+>: (\d+):(\d+)", m.out, re.M):
+            one[x.group(1)] = max(one.get(x.group(1), 0), int(x.group(3)))
+        for k, v in one.items():
+            cov[k] = cov.get(k, 0) + v
     return cov
 
 
@@ -195,8 +199,8 @@ def check18(ctx, prop):
         raise Broken("coverage witness Cover_Lease_Reacq.cfg produced no behaviour")
     for kind in ("partition", "group"):
         scheds.append({"kind": kind, "label": "cover:Reacq", "steps": h + [{"a": "AcqCommit", "b": h[-1]["b"], "r": h[-1]["r"]}]}); labels.append("cover:Reacq")
-    hs, _ = T.simulate_hists(ctx, d, "MC_Lease.tla", "Sim_Lease.cfg", num=(110 if quick else 1500), depth=(32 if quick else 40), seed=ctx.seed)
-    hs = maximal(hs, 100 if quick else 1400)
+    hs, _ = T.simulate_hists(ctx, d, "MC_Lease.tla", "Sim_Lease.cfg", num=(110 if quick else 900), depth=(32 if quick else 40), seed=ctx.seed)
+    hs = maximal(hs, 100 if quick else 800)
     for i, h in enumerate(hs):
         scheds.append({"kind": kinds(i), "label": "sim", "steps": h}); labels.append("sim")
     ctx.log("%d schedules (%d deviation counterexamples x2 kinds, %d simulated)" % (len(scheds), len(DEV18), len(hs)))
@@ -220,7 +224,7 @@ def check18(ctx, prop):
     return common_tail(ctx, prop, scheds, labels, rows, runs, False, must, mcs, st, extra, [
         "a broker is a live owner of r iff r is in its m.owned and the etcd lease of its current m.session is alive (it is in the admin client's Leases() list); a broker that has not yet noticed its expired session is not a live owner (DESIGN §4 C18)",
         "steps run one at a time: every other goroutine of the managers is parked at a verifGate or idle, so reading the key before and after the etcd part of Release attributes a removal to that Release",
-        "the keepalive loop noticing a lost lease is triggered by Session.Orphan() (closes the same Done channel); leases have TTL 600 s so only the admin client's Revoke expires them",
+        "the managers' etcd clients carry a wrapped clientv3.Lease: Grant and Revoke are real, no keepalives are sent (TTL 600 s, only the admin client's Revoke expires a lease), and the keepalive channel of a session is closed by the SessDone step (what the lessor does when it finds the lease gone) or when the session is orphaned or closed",
         "crash = closing the manager's etcd client (no revoke) and discarding the manager; restart = a new manager with the same broker id",
         "getOrCreateSession is one atomic model step (no gate inside it)",
     ], sum(1 for s in scheds if nontrivial18(s["steps"])),
